@@ -12,6 +12,7 @@
    Panic classes: PProved (lemma), PConst (literal arguments, computed), PReviewed (argued informally - NOT PROVED), PKnown (reachable: class). *)
 From Coq Require Import String List Bool Arith ZArith Lia.
 From RV Require Import Model.Base Model.RenderPrims Gen.Consts Gen.LeafFit Gen.LeafRender Model.Render Proofs.Render Gen.C02Sites.
+From RV Require Import Gen.LeafLoops Gen.LeafKernels Model.C02Surf Proofs.C02Surf Proofs.C02Kernels.
 Import ListNotations.
 Local Open Scope string_scope.
 
@@ -42,6 +43,21 @@ Proof. intros W H HW HH. destruct (canvas_in_max_bbox W H HW HH) as [m [E _]]. r
 (* clip.rs: IntRect::from_xywh(0, 0, 1, 1).unwrap() *)
 Lemma unit_rect_ok : irect_from_xywh 0 0 1 1 <> None.
 Proof. vm_compute. discriminate. Qed.
+
+(* filter/mod.rs from_image / apply_image: IntRect::from_xywh(0, 0, w, h).unwrap() with w, h the dimensions of an existing Pixmap /
+   of a valid IntRect (1 ..= i32::MAX) *)
+Lemma from_xywh_origin_ok : forall w h, (1 <= w <= I32_MAX)%Z -> (1 <= h <= I32_MAX)%Z -> irect_from_xywh 0 0 w h <> None.
+Proof.
+  intros w h Hw Hh. unfold irect_from_xywh, in_i32, I32_MIN, I32_MAX, U32_MAX in *.
+  repeat match goal with |- context [(?a <=? ?b)%Z] =>
+    let E := fresh in assert (E : (a <=? b)%Z = true) by (apply Z.leb_le; lia); rewrite E; clear E end.
+  repeat match goal with |- context [(?a <? ?b)%Z] =>
+    let E := fresh in assert (E : (a <? b)%Z = true) by (apply Z.ltb_lt; lia); rewrite E; clear E end.
+  discriminate.
+Qed.
+
+(* index expressions: proved in range by a theorem over source-derived definitions, or read and argued *)
+Inductive iclass := IProved (thm why : string) | IReviewed (why : string).
 
 Definition alloc_ledger : list (asite * aclass) := [
   (mk_asite "clip.rs" "apply" "Pixmap::new" "pixmap.width(), pixmap.height()" 0, ASurface);
@@ -101,11 +117,11 @@ Definition panic_ledger : list (psite * pclass) := [
   (mk_psite "filter/displacement_map.rs" "apply" PAssert "assert!(src.height == map.height && src.height == dest.height)" 0, PKnown "filter-size-assert");
   (mk_psite "filter/lighting.rs" "diffuse_lighting" PAssert "assert!(src.width == dest.width && src.height == dest.height)" 0, PKnown "filter-size-assert");
   (mk_psite "filter/lighting.rs" "specular_lighting" PAssert "assert!(src.width == dest.width && src.height == dest.height)" 0, PKnown "filter-size-assert");
-  (mk_psite "filter/mod.rs" "f32_bound" PDebugAssert "debug_assert!(min.is_finite())" 0, PReviewed "min / max are the literals 0 and 1 or a value already bounded by them at every call site");
-  (mk_psite "filter/mod.rs" "f32_bound" PDebugAssert "debug_assert!(max.is_finite())" 0, PReviewed "min / max are the literals 0 and 1 or a value already bounded by them at every call site");
-  (mk_psite "filter/mod.rs" "from_image" PUnwrap "region: IntRect::from_xywh(0, 0, w, h).unwrap()" 0, PReviewed "w, h are the dimensions of an existing Pixmap: non-zero and at most i32::MAX (tiny_skia IntSize)");
+  (mk_psite "filter/mod.rs" "f32_bound" PDebugAssert "debug_assert!(min.is_finite())" 0, PConst _ f32_bound_calls_ok);
+  (mk_psite "filter/mod.rs" "f32_bound" PDebugAssert "debug_assert!(max.is_finite())" 0, PConst _ f32_bound_calls_ok);
+  (mk_psite "filter/mod.rs" "from_image" PUnwrap "region: IntRect::from_xywh(0, 0, w, h).unwrap()" 0, PProved _ from_xywh_origin_ok);
   (mk_psite "filter/mod.rs" "apply_tile" PUnwrap "let rect = tiny_skia::Rect::from_xywh(0.0, 0.0, region.width() as f32, region.height() as f32) .unwrap()" 0, PReviewed "region is a valid IntRect: width, height in 1 ..= i32::MAX, exactly representable or rounded to a positive finite f32");
-  (mk_psite "filter/mod.rs" "apply_image" PUnwrap "max_bbox: tiny_skia::IntRect::from_xywh(0, 0, region.width(), region.height()).unwrap()" 0, PReviewed "region is a valid IntRect, so from_xywh(0, 0, w, h) has w, h in 1 ..= i32::MAX");
+  (mk_psite "filter/mod.rs" "apply_image" PUnwrap "max_bbox: tiny_skia::IntRect::from_xywh(0, 0, region.width(), region.height()).unwrap()" 0, PProved _ from_xywh_origin_ok);
   (mk_psite "image.rs" "render_vector" PUnwrap "let mut sub_pixmap = tiny_skia::Pixmap::new(pixmap.width(), pixmap.height()).unwrap()" 0, PReviewed "Pixmap::new / Mask::new fail for a zero size or a byte length beyond the address space only; an existing surface of the same size was allocated already");
   (mk_psite "lib.rs" "render" PUnwrap "let target_size = tiny_skia::IntSize::from_wh(pixmap.width(), pixmap.height()).unwrap()" 0, PReviewed "the dimensions of an existing PixmapMut are non-zero");
   (mk_psite "lib.rs" "render" PUnwrap "...t::from_xywh( -(target_size.width() as i32) * 2, -(target_size.height() as i32) * 2, target_size.width() * 5, target_size.height() * 5, ) .unwrap()" 0, PProved _ max_bbox_unwrap_ok);
@@ -116,25 +132,25 @@ Definition panic_ledger : list (psite * pclass) := [
 ].
 
 (* index expressions per function, each function read once (NOT PROVED): *)
-Definition index_ledger : list (string * string * nat * string) := [
-  (("filter/box_blur.rs", "box_blur_horz", 8%nat), "indices ti/li/ri advance by 1 within one row; C02_box_blur_line_covered: exactly `width` writes per row; get_left/get_right guard the ends");
-  (("filter/box_blur.rs", "box_blur_vert", 8%nat), "indices ti/li/ri advance by `width` within one column; C02_box_blur_line_covered: exactly `height` writes per column; get_top/get_bottom guard the ends");
-  (("filter/box_blur.rs", "create_box_gauss", 2%nat), "sizes[i] with i in 0..STEPS on [i32; STEPS]");
-  (("filter/color_matrix.rs", "apply", 38%nat), "m[0..19] guarded by `m.len() == 20` (usvg builds exactly 20 values); fixed-size local arrays");
-  (("filter/component_transfer.rs", "transfer", 4%nat), "table[k] / table[k + 1] with k clamped to n - 1 resp. guarded by k < n - 1; empty tables return early");
-  (("filter/composite.rs", "arithmetic", 1%nat), "dest.data[i] under the size assert!s (class filter-size-assert covers their failure)");
-  (("filter/displacement_map.rs", "apply", 2%nat), "indices computed from coordinates bounds-checked against width and height just before (seed C02-7 exercised by the kernel grid)");
-  (("filter/iir_blur.rs", "gaussian_channel", 4%nat), "i in 0..data.len()/4 on buf of len width*height = data.len()/4");
-  (("filter/iir_blur.rs", "gaussianiir2d", 8%nat), "C02_iir_loops: the vertical loops visit multiples of width below buf.len(); horizontal x in 1..width");
-  (("filter/mod.rs", "alpha_at", 1%nat), "x < width, y < height at every call site (lighting kernels iterate 0..width / 0..height; smaller-than-3x3 images return early)");
-  (("filter/mod.rs", "from_linear_rgb", 3%nat), "u8 index into a 256-entry table");
-  (("filter/mod.rs", "into_linear_rgb", 3%nat), "u8 index into a 256-entry table");
-  (("filter/mod.rs", "pixel_at", 1%nat), "callers clamp / wrap / bounds-check tx, ty first (C02_convolve_wrap_terminates: 0 <= t < dim)");
-  (("filter/mod.rs", "pixel_at_mut", 1%nat), "x, y are the running output coordinates, x < width, y < height");
-  (("filter/turbulence.rs", "init", 32%nat), "indices i, j below B_SIZE resp. B_SIZE + i with i < B_SIZE + 2 on tables of B_LEN = 2 * B_SIZE + 2");
-  (("filter/turbulence.rs", "noise2", 22%nat), "lattice indices masked by BM (0xff) then + 1 / + lattice value < B_LEN");
-  (("image.rs", "rgb_to_pixmap", 4%nat), "fixed offsets into chunks produced by as_rgb()");
-  (("image.rs", "rgba_to_pixmap", 4%nat), "fixed offsets into chunks produced by as_rgba()")
+Definition index_ledger : list (string * string * nat * iclass) := [
+  (("filter/box_blur.rs", "box_blur_horz", 8%nat), IProved "C02_box_blur_line_covered" "exactly `width` output writes per row, the running index stays in the row; reads go through get_left / get_right");
+  (("filter/box_blur.rs", "box_blur_vert", 8%nat), IProved "C02_box_blur_line_covered" "exactly `height` output writes per column, the running index stays in the column; reads go through get_top / get_bottom");
+  (("filter/box_blur.rs", "create_box_gauss", 2%nat), IReviewed "sizes[i] with i in 0..STEPS on [i32; STEPS]");
+  (("filter/color_matrix.rs", "apply", 38%nat), IReviewed "m[0..19] guarded by `m.len() == 20` (usvg builds exactly 20 values); fixed-size local arrays");
+  (("filter/component_transfer.rs", "transfer", 4%nat), IProved "C02_transfer_indices_in_range" "every values[..] index of the Table and Discrete arms is below values.len() for every c and every non-empty list; empty lists never reach transfer (is_dummy)");
+  (("filter/composite.rs", "arithmetic", 1%nat), IReviewed "dest.data[i] under the size assert!s (class filter-size-assert covers their failure)");
+  (("filter/displacement_map.rs", "apply", 2%nat), IProved "C02_displacement_indices_in_range" "idx and idx1 are below w * h under the guard, for every rounded offset incl. saturated / NaN ones");
+  (("filter/iir_blur.rs", "gaussian_channel", 4%nat), IReviewed "i in 0..data.len()/4 on buf of len width*height = data.len()/4");
+  (("filter/iir_blur.rs", "gaussianiir2d", 8%nat), IProved "C02_iir_loops" "the vertical loops visit multiples of width in 0 .. buf.len(); horizontal x in 1..width");
+  (("filter/mod.rs", "alpha_at", 1%nat), IProved "C02_lighting_indices_in_range" "every (x, y) the lighting kernels hand to alpha_at is inside the image, incl. 1-px-wide images (early return)");
+  (("filter/mod.rs", "from_linear_rgb", 3%nat), IReviewed "u8 index into a 256-entry table");
+  (("filter/mod.rs", "into_linear_rgb", 3%nat), IReviewed "u8 index into a 256-entry table");
+  (("filter/mod.rs", "pixel_at", 1%nat), IProved "C02_convolve_wrap_terminates" "edgeMode=wrap coordinates are 0 <= t < dim; none / duplicate bounds-check resp. clamp first");
+  (("filter/mod.rs", "pixel_at_mut", 1%nat), IProved "C02_lighting_indices_in_range" "lighting writes at (nx, ny) inside the image; convolve_matrix writes at its running output coordinate");
+  (("filter/turbulence.rs", "init", 32%nat), IReviewed "indices i, j below B_SIZE resp. B_SIZE + i with i < B_SIZE + 2 on tables of B_LEN = 2 * B_SIZE + 2");
+  (("filter/turbulence.rs", "noise2", 22%nat), IReviewed "lattice indices masked by BM (0xff) then + 1 / + lattice value < B_LEN");
+  (("image.rs", "rgb_to_pixmap", 4%nat), IReviewed "fixed offsets into chunks produced by as_rgb()");
+  (("image.rs", "rgba_to_pixmap", 4%nat), IReviewed "fixed offsets into chunks produced by as_rgba()")
 ].
 
 (* ------------------------------------------------------------------ coverage *)
@@ -173,7 +189,7 @@ Qed.
 
 Lemma sites_discharged :
   (forall s, In s panic_sites -> exists c, In (s, c) panic_ledger /\ pclass_ok c = true) /\
-  (forall s, In s index_counts -> exists why, In (s, why) index_ledger) /\ panic_sites <> [].
+  (forall s, In s index_counts -> exists c, In (s, c) index_ledger) /\ panic_sites <> [].
 Proof.
   assert (C : panic_covered = true) by (vm_compute; reflexivity).
   unfold panic_covered in C.
